@@ -70,6 +70,108 @@ def key_shape(ex, v):
     return k, None, None
 
 
+KF_JSON_KEYS = 'C16/json-and-api-routes/uncanonical-key'
+
+
+def check_other_routes(rep, cross, cap):
+    """the places outside the four key functions that turn a document/host string into a property key must produce the SAME key
+    (Index for canonical index spellings): JSON.parse / create_from_json (json_to_js_value_with_guard) and api::get_property /
+    api::set_property.  A key stored as String("1") is invisible to the VM's o[1] / o["1"], which look up Index(1)."""
+    routes = [('json_to_js_value_with_guard', 'set'), ('api::set_property', 'set'), ('api::get_property', 'get')]
+    for fname, kind in routes:
+        ex = setup(rep.tier)
+        ex.auto_havoc = True
+        ex.execute_real = [re.compile(r'^Interpreter::property_key|^PropertyKey::from_value$')]
+        captured = []
+
+        def cap_key(e, s, c):
+            k = c.args[1]
+            k = e.load(s, k.addr, k.path) if isinstance(k, Ref) else k
+            s.event('keyed', k)
+            e.havoc_used.add('JsObject::get_property / set_property (the key argument is recorded)')
+            return e.ret(s, c, e.fresh(s, c.dest_ty, 'prop')) if c.dest_ty else e.ret(s, c, UNIT)
+        ex.overrides.append((re.compile(r'^JsObject::(set_property|get_property)$'), cap_key))
+        short = fname.split('::')[-1]
+        if fname.startswith('api::'):
+            # free functions of src/api.rs are printed without a module prefix
+            cands = [n for n in ex.mir.fn_index if n == short]
+        else:
+            cands = [n for n in ex.mir.fn_index if (n == fname or n.endswith('::' + short)) and '{closure' not in n]
+        if len(cands) != 1:
+            rep.inconc('cannot locate %s in the MIR dump (%r)' % (fname, cands[:3]))
+            continue
+        st = State()
+        st.extra['alphabet'] = [z3.BitVecVal(c, 8) for c in ALPHA]
+        key = ex.fresh_str(st, cap, 'dockey')
+        is_idx, val = canonical_index(key)
+        interp = st.alloc(Agg('struct', 'Interpreter', {}, lazy=True))
+        if fname == 'json_to_js_value_with_guard':
+            # one-member object { key: <anything> }: the map iterator yields (key, value) once
+            state = {'n': 0}
+
+            def it_next(e, s, c):
+                k = sum(1 for ev in s.events if ev[0] == 'map_next')
+                s.event('map_next')
+                if k >= 1:
+                    return e.ret(s, c, e.none())
+                kcell = s.alloc(key)
+                vcell = s.alloc(EnumV('Value', 0, {}))
+                return e.ret(s, c, e.some(Agg('tuple', 'tuple', {0: Ref(kcell), 1: Ref(vcell)})))
+            ex.overrides.insert(0, (re.compile(r'^<.*Iter<.*> as Iterator>::next$|^<serde_json::map::Iter.* as Iterator>::next$|^<map::Iter.* as Iterator>::next$'), it_next))
+            json_cell = st.alloc(EnumV('Value', 5, {5: {0: Opaque('Map<String, Value>')}}))
+            args = [Ref(interp), Ref(json_cell), Ref(st.alloc(Opaque('Guard<JsObject>')))]
+        else:
+            objv = EnumV('JsValue', 6, {6: {0: Opaque('Gc<JsObject>', z3.Int('$apiobj'))}})
+            args = [Ref(st.alloc(objv)), key] + ([ex.fresh(st, 'JsValue', '$newval')] if kind == 'set' else [])
+        ex.call_function(st, cands[0], args)
+        ends = ex.run(st, max_paths=3000)
+        nret = 0
+        for k, e in enumerate(ends):
+            if e.status in ('bound',):
+                continue
+            if e.status != 'return':
+                rep.inconc('%s: %s %s' % (fname, e.status, e.detail[:160]))
+                continue
+            keyed = [ev[1] for ev in e.st.events if ev[0] == 'keyed']
+            if not keyed:
+                continue
+            nret += 1
+            kv = keyed[0]
+            names = ex.enum_variants('PropertyKey')
+            kname = names[kv.discr] if isinstance(kv.discr, int) else '?'
+            if kname == 'Index':
+                iv = kv.payload[kv.discr][0]
+                from emir.models import int_to_str
+                g = z3.And(is_idx, s_eq(int_to_str(ex, e.st, iv), key)) if getattr(iv, 'dec', None) is not None else z3.And(is_idx, z3.ZeroExt(32, iv.e) == val)
+            elif kname == 'String':
+                g = z3.Not(is_idx)
+            else:
+                g = z3.BoolVal(False)
+            t = time.time()
+            r, m = ex.check_sat_pc(e.st.pc, [z3.Not(g)])
+            what = '%s path %d: the property key built from a document/host string is the canonical key (Index for index spellings)' % (fname, k)
+            rep.obligation(what, r, 'strings <= %d bytes' % cap, time.time() - t)
+            if r == 'unsat':
+                cross.append((what, list(e.st.pc) + [z3.Not(g)], 'unsat'))
+            elif not rep.seen(KF_JSON_KEYS):
+                txt = s_model_bytes(m, key).decode('latin-1')
+                src = "const o = JSON.parse('{%s:7}'); [o[%s], JSON.stringify(o)].join('|')" % (json.dumps(txt), json.dumps(txt))
+                o = driver.replay([{'cmd': 'eval', 'src': src}, {'cmd': 'api_key', 's': txt}])
+                rep.validated += 2
+                got = o[0].get('value', {}).get('v')
+                want = '7|{%s:7}' % json.dumps(txt)
+                api_bad = o[1].get('script_sees_host_write') is False or o[1].get('host_sees_script_write') is False
+                if got == want and not api_bad:
+                    rep.inconc('%s: counterexample key %r does not reproduce (%r, %r)' % (what, txt, got, o[1]))
+                else:
+                    p = rep.write_replay('json-key', {'cmd': 'eval', 'src': src, 'expected': want, 'observed': got, 'api': o[1]})
+                    rep.violation(KF_JSON_KEYS, 'key %r: %s gives %r (expected %r); api round trip: %r' % (txt, src, got, want, o[1]), p)
+        if nret == 0:
+            rep.inconc('%s: no path reaches a keyed property access (vacuity)' % fname)
+        rep.sample({'kernel': fname + ' key construction', 'paths_with_key': nret})
+        rep.absorb(ex)
+
+
 def run(rep):
     cap = CAP[rep.tier]
     rep.bounds = dict(string_bytes=cap, alphabet=ALPHA.decode(), numbers='every f64 (see C15 b)')
@@ -223,6 +325,7 @@ def run(rep):
                         rep.violation('C16/number-key/routes-disagree', 'key of %r: from_value %r, interpreter route %r' % (vmarms.bits_f64(bits), o['from_value'], o['interp_from_value']), p)
         rep.sample({'kernel': 'number keys: two routes', 'feasible_pairs': npair})
     rep.absorb(ex2)
+    check_other_routes(rep, cross, cap)
     rep.cross = driver.cross_check(cross, 300, 'ALL', rep.tier, rep.seed)
     rep.extra['cross_checked_obligations'] = len(cross)
 
